@@ -56,7 +56,7 @@ func runHarness(p *Program, id string) map[string]interface{} {
 		files[as] = full
 	}
 	out, failed, cmd := runOverlayTests(p.repo, ".", files, h.test)
-	r := map[string]interface{}{"command": cmd, "confirmed": failed && strings.Contains(out, h.marker), "output": tail(out, 2500), "input": h.input}
+	r := map[string]interface{}{"command": cmd, "confirmed": failed && strings.Contains(out, h.marker), "output": tail(out, 2500), "input": h.input, "full_output": out, "failed": failed}
 	replayCache[id] = r
 	return r
 }
